@@ -869,7 +869,14 @@ def errmap_facts(prog: Program, interp: Interp, r: DispatcherRoles) -> Tuple[Dic
                     return False if any(v is False for v in vs) else True if all(v is True for v in vs) else None
                 return True if any(v is True for v in vs) else False if all(v is False for v in vs) else None
             if isinstance(test, ast.Call) and dotted(test.func) == 'isinstance' and len(test.args) == 2 and hvar and dotted(test.args[0]) == hvar:
-                tps = test.args[1].elts if isinstance(test.args[1], ast.Tuple) else [test.args[1]]
+                tp_e = test.args[1]
+                if isinstance(tp_e, ast.Name):
+                    # the tuple of classes may be named first (`malformed = (A, B)`)
+                    nn_ = cfg.nodes_of(test)
+                    al_ = fl_e.alts(nn_[0], tp_e) if nn_ else []
+                    if len(al_) == 1 and isinstance(al_[0].expr, (ast.Tuple, ast.Attribute)):
+                        tp_e = al_[0].expr
+                tps = tp_e.elts if isinstance(tp_e, ast.Tuple) else [tp_e]
                 res_ = False
                 for t_ in tps:
                     ent = prog.resolve(f.module, t_)
@@ -883,7 +890,21 @@ def errmap_facts(prog: Program, interp: Interp, r: DispatcherRoles) -> Tuple[Dic
 
         def made_for(k: str) -> List[str]:
             out_: Set[str] = set()
+            # the statements of the handler that run for an exception of class k: every type test on the caught exception is resolved
+            avoid_ = []
+            for c0 in body:
+                if c0.kind == 'cond':
+                    t0, neg0 = c0.ast, False
+                    while isinstance(t0, ast.UnaryOp) and isinstance(t0.op, ast.Not):
+                        t0, neg0 = t0.operand, not neg0
+                    v0 = holds_for(t0, k)
+                    if v0 is not None:
+                        taken0 = v0 != neg0
+                        avoid_ += [ed for ed in cfg.succ[c0.id] if ed.label in ('T', 'F') and (ed.label == 'T') != taken0]
+            feasible_ = cfg.reachable(h, avoid_edges=avoid_) | {h.id}
             for n_, c_, q_ in made:
+                if n_.id not in feasible_:
+                    continue
                 # the class constructed here, per value of the callee expression, under the conditions that select that value
                 alts = fl_e.alts(n_, c_.func) if isinstance(c_.func, ast.Name) else []
                 conds_n = [(g.src.ast, g.label == 'T') for g in _ge(cfg, n_) if g.src.handler is h or g.src in body]
